@@ -231,6 +231,16 @@ def plan(tier):
     else:
         p += [(180, 180, 0.05, 0, 'est', 2, 30), (180, 90, 0.5, 0, 'est', 1, 15), (3600, 3600, 0.05, 0, 'est', 1, 900), (3600, 240, 0.05, 0, 'est', 1, 60),
               (65535, 65535, 0.05, 0, 'est', 0), (65535, 0, 0.05, 0, 'est', 0), (9, 9, 0.05, 0, 'mirror', 3), (3, 9, 0.95, 0, 'mirror', 3), (9, 0, 0.05, 0, 'mirror', 1)]
+
+    # cheapest first: when the time budget cuts the run short it is the largest enumerations that are reported as not run
+    def cost(e):
+        H = min(e[0], e[1]) if e[0] and e[1] else 0
+        hz = horizon_for(H)
+        stride = e[6] if len(e) > 6 else 1
+        n = sum(1 for _ in vectors(min(hz, 40), e[5], stride=stride)) if hz <= 40 else (hz // stride + 1) ** e[5]
+        return n * hz
+    if tier != 'quick':
+        p.sort(key=cost)
     return p
 
 
